@@ -179,3 +179,14 @@ claim('C10',
       'one defect repaired (ellipse/box without angle).',
       'symbolic execution of the real parser with symbolic numerals + SMT (z3 LRA), grammar-directed program enumeration',
       'DESIGN.md section 5 C10')
+claim('C03',
+      'Bounded, compositional symbolic check of the exact-overlap code with the transcendental leaf uninterpreted: to_mask(mode=exact) plumbing '
+      '(grid extents, radius / semi-axes, angle in radians, use_exact=1, result returned untouched); circle and ellipse grid kernels '
+      '(a pixel is left 0 only if it does not meet the shape, set to 1 only if it lies in the disc, otherwise single-pixel overlap / pixel area, '
+      'evaluated on the right extents); quadrant decomposition of the circle/rectangle overlap tiles the rectangle; first-quadrant core = polygon '
+      'of inside corners and crossing points + circular segment; ellipse pixel = two triangle/unit-circle overlaps of the mapped pixel halves '
+      'times rx*ry; triangle/unit-circle cases; the segment routine implements r^2(theta - sin theta)/2.',
+      'The identity "segment formula = area of the circular segment" (asin/sin), floating-point error (the 1e-8 of the statement) and the '
+      'convergence rate of sub-pixel masks are outside the claim (see DESIGN.md); grids up to 2x2 (quick) / 3x3 (thorough) pixels.',
+      'pyx-level symbolic execution of the real kernels with uninterpreted area functions + SMT (z3 NRA/UF), lemma chains proved before use',
+      'DESIGN.md section 5 C03')
